@@ -6,7 +6,7 @@ import json
 import os
 import sys
 sys.path.insert(0, os.path.dirname(os.path.dirname(os.path.abspath(__file__))))
-from lsa.model import Repo, callees_of, fingerprint   # noqa: E402
+from lsa.model import Repo, callees_of, fingerprint, call_site_texts   # noqa: E402
 
 repo = Repo()
 funcs = sorted({f.key + ('#setter' if f.is_setter else '') for f in repo.all_functions()})
@@ -18,6 +18,13 @@ for f in repo.all_functions():
     private[f.key] = {'params': [p[0] for p in f.params()],
                       'callers': sorted(k for k, cs in calls.items() if f.key in cs and k != f.key),
                       'fp': fingerprint(f)}
+    sites = {}
+    for k, cs in calls.items():
+        if f.key in cs and k != f.key:
+            t = call_site_texts(repo.func(k), f.name, private[f.key]['params'])
+            if t:
+                sites[k] = t
+    private[f.key]['sites'] = sites
 path = os.path.join(os.path.dirname(os.path.dirname(os.path.abspath(__file__))), 'specs', 'known_functions.json')
 old = json.load(open(path))
 old['functions'] = funcs
